@@ -7,8 +7,9 @@ for f in sys.argv[1:]:
         m = re.match(r"^(\S+) (C\d\d) (CAUGHT|MISSED|ERROR) (\d+)s", line)
         if m:
             res[(m.group(1), m.group(2))] = (m.group(3), m.group(4))
-seeds = [(k, v) for k, v in res.items() if not k[0].startswith("B0")]
-benign = [(k, v) for k, v in res.items() if k[0].startswith("B0")]
+isb = lambda n: re.match(r"^B\d\d_", n) is not None
+seeds = [(k, v) for k, v in res.items() if not isb(k[0])]
+benign = [(k, v) for k, v in res.items() if isb(k[0])]
 caught = sum(1 for k, v in seeds if v[0] == "CAUGHT")
 out = []
 out.append("# Seeded changes, own mutants and benign patches: last full regression\n")
